@@ -506,6 +506,58 @@ theorem safeFinish_good {declared : Nat} {m m3 : M} {r : Res} {f : Frame} {e0 : 
     have : m3.ctxs = [] := hr
     rw [hx] at this; cases this
 
+/-- stronger form: safe_apply always COMPLETES (it absorbs every error of the applied function) with both stacks and
+    the chain of its start state — for every number of passed and declared arguments -/
+theorem safeFinish_total {declared : Nat} {m m3 : M} {r : Res} {f : Frame} {e0 : Ctx}
+    (hv : m3.vs = List.replicate declared Slot.val ++ m.vs) (hc : m3.cs = f :: m.cs)
+    (hx : m3.ctxs = e0 :: m.ctxs) (hr : Good m3 r) :
+    ∃ m', safeFinish (ctxOf m) m.ctxs declared r = .ok m' ∧ Same m m' := by
+  cases r with
+  | ok m5 =>
+    obtain ⟨m6, hl6, h6v, h6c, h6x⟩ := leaveCall_spec (k := .other masterVal) (fs := [f]) (m := { m with ctxs := e0 :: m.ctxs })
+      (hr.vs.trans hv) rfl (hr.cs.trans hc) (hr.ctxs.trans hx)
+    obtain ⟨m7, hp7, h7v, h7c, h7x⟩ := popN_exact (n := 1) (m := m6) (dv0 := [Slot.val]) h6v rfl
+    exact ⟨popContext m.ctxs m7, by simp only [safeFinish, hl6, hp7], ⟨h7v, h7c.trans h6c, rfl⟩⟩
+  | err m6 =>
+    obtain ⟨dv, hdv⟩ := hr.vs
+    obtain ⟨dc, hdc⟩ := hr.cs
+    obtain ⟨m7, h1, h2, h3, _, _⟩ := restoreContext_ext m6 (dv ++ List.replicate declared Slot.val) m.vs (dc ++ [f]) m.cs m.cg
+      (by rw [hdv, hv]; simp) (by rw [hdc, hc]; simp) m.loadDepth m.restrictDestruct
+    have h1 : restoreContext (ctxOf m) m6 = .ok m7 := h1
+    exact ⟨popContext m.ctxs m7, by simp only [safeFinish, h1], ⟨h2, h3, rfl⟩⟩
+  | crash w m1 =>
+    have : m3.ctxs = [] := hr
+    rw [hx] at this; cases this
+
+theorem safeFpFinish_total {declared : Nat} {m m3 : M} {r : Res} {owner : Val} {f g : Frame} {e0 : Ctx}
+    (hv : m3.vs = List.replicate declared Slot.val ++ m.vs) (hc : m3.cs = f :: g :: m.cs)
+    (hx : m3.ctxs = e0 :: m.ctxs) (hr : Good m3 r) :
+    ∃ m', safeFpFinish owner (ctxOf m) m.ctxs declared r = .ok m' ∧ Same m m' := by
+  cases r with
+  | ok m5 =>
+    obtain ⟨m6, hl6, h6v, h6c, h6x⟩ := leaveCall_spec (k := .fpLocal owner) (fs := [f, g]) (m := { m with ctxs := e0 :: m.ctxs })
+      (hr.vs.trans hv) rfl (hr.cs.trans hc) (hr.ctxs.trans hx)
+    obtain ⟨m7, hp7, h7v, h7c, h7x⟩ := popN_exact (n := 1) (m := m6) (dv0 := [Slot.val]) h6v rfl
+    exact ⟨popContext m.ctxs m7, by simp only [safeFpFinish, hl6, hp7], ⟨h7v, h7c.trans h6c, rfl⟩⟩
+  | err m6 =>
+    obtain ⟨dv, hdv⟩ := hr.vs
+    obtain ⟨dc, hdc⟩ := hr.cs
+    obtain ⟨m7, h1, h2, h3, _, _⟩ := restoreContext_ext m6 (dv ++ List.replicate declared Slot.val) m.vs (dc ++ [f, g]) m.cs m.cg
+      (by rw [hdv, hv]; simp) (by rw [hdc, hc]; simp) m.loadDepth m.restrictDestruct
+    have h1 : restoreContext (ctxOf m) m6 = .ok m7 := h1
+    exact ⟨popContext m.ctxs m7, by simp only [safeFpFinish, h1], ⟨h2, h3, rfl⟩⟩
+  | crash w m1 =>
+    have : m3.ctxs = [] := hr
+    rw [hx] at this; cases this
+
+
+theorem safeFpFinish_err {owner : Val} {declared : Nat} {m m6 : M} {dv : List Slot} {dc : List Frame}
+    (hv : m6.vs = dv ++ m.vs) (hc : m6.cs = dc ++ m.cs) :
+    ∃ m', safeFpFinish owner (ctxOf m) m.ctxs declared (.err m6) = .ok m' ∧ Same m m' := by
+  obtain ⟨m7, h1, h2, h3, _, _⟩ := restoreContext_ext m6 dv m.vs dc m.cs m.cg hv hc m.loadDepth m.restrictDestruct
+  have h1 : restoreContext (ctxOf m) m6 = .ok m7 := h1
+  exact ⟨popContext m.ctxs m7, by simp only [safeFpFinish, h1], ⟨h2, h3, rfl⟩⟩
+
 theorem depthCheck_spec {k : CallKind} {m1 mFull : M} (h : depthCheck k m1 = some mFull) : Ext m1 mFull := by
   unfold depthCheck at h
   split at h
@@ -519,6 +571,7 @@ theorem depthCheck_spec {k : CallKind} {m1 mFull : M} (h : depthCheck k m1 = som
 theorem execOp_good_of {o : Op} (h : ∀ m, Good m (execCore o m)) (m : M) : Good m (execOp o m) := by
   unfold execOp
   split
+  · exact h _
   · exact h _
   · split
     · exact raise_good _ (tick_same m).toExt
@@ -617,7 +670,46 @@ theorem execCore_good : ∀ (o : Op) (m : M), Good m (execCore o m)
       | [f], _ =>
         exact safeFinish_good (f := f) (e0 := econ0) h3v (by rw [h3c, ec, h1c]; rfl) (by rw [h3x, ex, h1x]; rfl)
           (thenTick_good (exec_good body m3))
+  | .safeFp owner nargs declared body, m => by
+    simp only [execCore]
+    split
+    · obtain ⟨m2, hp, h2v, h2c, h2x⟩ := popN_exact (n := nargs) (m := pushVals nargs m) (rest := m.vs) rfl (by simp)
+      simp only [hp]
+      exact ⟨h2v, h2c, h2x⟩
+    · rename_i econ0 m2 hs
+      obtain ⟨he, h1v, h1c, h1x, h1g⟩ := saveContext_spec hs
+      have hctx : safeCtx nargs econ0 = ctxOf m := by
+        rw [he]; simp [safeCtx, pushVals, ctxOf]
+      rw [hctx]
+      split
+      · rename_i mFull hd
+        have hE := depthCheck_spec hd
+        have hr := raise_rspec "***Too deep recursion." (m := m2)
+          (m0 := { mFull with errState := mFull.errState ||| Gen.C05.esStackFull }) ⟨hE.vs, hE.cs, hE.ctxs⟩
+        cases hq : raise "***Too deep recursion." { mFull with errState := mFull.errState ||| Gen.C05.esStackFull } with
+        | ok x => rw [hq] at hr; exact hr.elim
+        | err m6 =>
+          rw [hq] at hr
+          obtain ⟨dv, hdv⟩ := hr.1.vs
+          obtain ⟨dc, hdc⟩ := hr.1.cs
+          obtain ⟨m', h1, hs'⟩ := safeFpFinish_err (owner := owner) (declared := declared) (m := m) (m6 := m6)
+            (dv := dv ++ List.replicate nargs Slot.val) (dc := dc) (by rw [hdv, h1v]; simp [pushVals]) (by rw [hdc, h1c]; rfl)
+          rw [h1]; exact hs'
+        | crash w x =>
+          rw [hq] at hr
+          have : m2.ctxs = [] := hr
+          rw [h1x] at this; cases this
+      · obtain ⟨ev, ex, fs, efl, ec⟩ := enterCall_spec (.fpLocal owner) declared m2
+        obtain ⟨m3, ha, h3v, h3c, h3x⟩ := adjustArgs_spec (nargs := nargs) (declared := declared)
+          (m1 := enterCall (.fpLocal owner) declared m2) (rest := m.vs) (ev.trans h1v)
+        simp only [ha]
+        match fs, efl with
+        | [f, g], _ =>
+          obtain ⟨m', h1, hs'⟩ := safeFpFinish_total (owner := owner) (f := f) (g := g) (e0 := econ0) h3v
+            (by rw [h3c, ec, h1c]; rfl) (by rw [h3x, ex, h1x]; rfl) (thenTick_good (exec_good body m3))
+          rw [h1]; exact hs'
   | .raise msg, m => by simp only [execCore]; exact raise_good _ (Same.rfl' m).toExt
+  | .craise msg, m => by simp only [execCore]; exact raise_good _ (Same.rfl' m).toExt
   | .throw_ v, m => by simp only [execCore]; exact throwVal_good _ (Same.rfl' m).toExt
   | .raiseLimit, m => by simp only [execCore]; exact raise_good _ ⟨⟨[], rfl⟩, ⟨[], rfl⟩, rfl⟩
   | .load body, m => by
